@@ -1,7 +1,7 @@
 //! Report of one shard: evaluations, coverage cells, violations (deduplicated by signature), samples.
 use serde_json::{json, Map, Value};
 use std::cell::RefCell;
-use std::collections::BTreeMap;
+use std::collections::{BTreeMap, BTreeSet};
 use std::panic::{catch_unwind, AssertUnwindSafe};
 
 #[derive(Default)]
@@ -16,6 +16,20 @@ pub struct Report {
 	pub inconclusive: Vec<String>,
 	pub notes: Vec<String>,
 	pub sample_cap: usize,
+	/// K-minimum-values sketch of the hashes of the distinct non-trivial cases this shard judged (exact below K cases);
+	/// the driver unions the sketches of all shards and rounds, so repeated cases are counted once
+	pub kmv: BTreeSet<u64>,
+	kmv_max: u64,
+	pub case_calls: u64,
+}
+
+pub const KMV_K: usize = 4096;
+#[inline]
+fn mix64(mut z: u64) -> u64 {
+	z = z.wrapping_add(0x9E37_79B9_7F4A_7C15);
+	z = (z ^ (z >> 30)).wrapping_mul(0xBF58_476D_1CE4_E5B9);
+	z = (z ^ (z >> 27)).wrapping_mul(0x94D0_49BB_1331_11EB);
+	z ^ (z >> 31)
 }
 
 impl Report {
@@ -25,6 +39,35 @@ impl Report {
 	#[inline]
 	pub fn eval(&mut self, n: u64) {
 		self.evaluations += n;
+	}
+	/// registers one distinct non-trivial case (identified by the words that determine it: what was built, with which
+	/// parameters, over which generated input) - call it once per judged case, not per oracle decision
+	#[inline]
+	pub fn case(&mut self, parts: &[u64]) {
+		let mut h = 0x243F_6A88_85A3_08D3u64;
+		for p in parts {
+			h = mix64(h ^ *p);
+		}
+		self.case_hash(h);
+	}
+	#[inline]
+	pub fn case_hash(&mut self, h: u64) {
+		self.case_calls += 1;
+		if self.kmv.len() < KMV_K {
+			self.kmv.insert(h);
+			if self.kmv.len() == KMV_K {
+				self.kmv_max = *self.kmv.iter().next_back().unwrap();
+			}
+		} else if h < self.kmv_max && self.kmv.insert(h) {
+			let mx = self.kmv_max;
+			self.kmv.remove(&mx);
+			self.kmv_max = *self.kmv.iter().next_back().unwrap();
+		}
+	}
+	pub fn case_named(&mut self, name: &str, parts: &[u64]) {
+		let mut v = vec![crate::rng::hash_str(name)];
+		v.extend_from_slice(parts);
+		self.case(&v);
 	}
 	pub fn cell(&mut self, name: &str) {
 		*self.cells.entry(name.to_string()).or_insert(0) += 1;
@@ -63,6 +106,13 @@ impl Report {
 			self.samples.push(v());
 		}
 	}
+	/// an actual judged case written out for the evidence file, taken every `every`-th registered case (so that the few
+	/// samples kept are spread over the workload instead of being the first ones)
+	pub fn sample_case(&mut self, every: u64, v: impl FnOnce() -> Value) {
+		if self.samples.len() < self.sample_cap && self.case_calls % every.max(1) == 1 % every.max(1) {
+			self.samples.push(v());
+		}
+	}
 	pub fn inconclusive(&mut self, why: &str) {
 		self.inconclusive.push(why.to_string());
 	}
@@ -90,6 +140,9 @@ impl Report {
 			"maxes": maxes,
 			"inconclusive": self.inconclusive,
 			"notes": self.notes,
+			"case_calls": self.case_calls,
+			"kmv_k": KMV_K,
+			"kmv": self.kmv.iter().map(|h| format!("{h:016x}")).collect::<Vec<_>>(),
 		})
 	}
 }
